@@ -480,8 +480,8 @@ int main(int argc, char** argv) {
                     type = (int)v.type;
                     if (type == Value::T_INT) iv = v.int64;
                     hexs = v.hex_str(); if (hexs.empty()) hexs = "-";
-                    if (type != Value::T_STRING) iv = v.int_value();
-                    data = hx(v.data_value());
+                    data = hx(Value(v).data_value());
+                    if (type != Value::T_STRING) { try { iv = v.int_value(); } catch (const std::exception&) { iv = 0; } }
                 } catch (const std::exception& e) { ex = e.what(); }
                 emit_capture();
                 fprintf(EV, "VS %d %lld %s %s %s\n", type, iv, data.c_str(), hexs.c_str(), exc_class(ex).c_str()); fflush(EV);
